@@ -61,6 +61,9 @@ inductive Stmt
 structure Ctx where
   W : World
   colls : List Shape
+  /-- the whole program runs inside a destructor while the thread unwinds from an unrelated panic
+  (inner panics are caught inside that destructor) -/
+  outer : Bool := false
 
 def Ctx.shape (C : Ctx) (c : Nat) : Shape := C.colls.getD c (.seq [])
 
@@ -85,6 +88,23 @@ def guardDrop (m : Mode) : List GuardItem → Bool → Prog Unit Bool
       match r with
       | .panic => if panicking then abort else guardDrop m gs true
       | _ => guardDrop m gs panicking
+
+/-- Dropping a guard on the normal path *while the thread is already unwinding from an unrelated
+panic* (the call was made from a destructor): `PoisonRef::drop` tests `thread::panicking()`,
+which is true, so every wrapper inside poisons although nothing panicked during the hold. A
+panicking release is an ordinary panic here (the guard is not dropped by cleanup code). -/
+def guardDropO (m : Mode) : List GuardItem → Bool → Prog Unit Bool
+  | [], panicking => done panicking
+  | .poisonRef p :: gs, panicking => op (.poisonSet p) fun _ => guardDropO m gs panicking
+  | .leaf x isMutex :: gs, panicking =>
+    op (.rel (if isMutex then .excl else m) x) fun r =>
+      match r with
+      | .panic => if panicking then abort else guardDropO m gs true
+      | _ => guardDropO m gs panicking
+
+/-- the guard goes away normally; `outer`: from a destructor during an unrelated unwind -/
+def guardDropN (outer : Bool) (m : Mode) (items : List GuardItem) : Prog Unit Bool :=
+  if outer then guardDropO m items false else guardDrop m items false
 
 /-! ### Debug -/
 
@@ -188,11 +208,11 @@ def guardPhase (C : Ctx) (S : Shape) (ses : Session) (u : UserSt) : Prog Unit (N
     | .forget => op .keyForget fun _ => done (out, u)
     | .panic => op (.mark mkUserPanic) fun _ => afterPanic
     | .unlock =>
-      Prog.bind (guardDrop ses.mode items false) fun panicked =>
+      Prog.bind (guardDropN C.outer ses.mode items) fun panicked =>
         if panicked then op .keyDrop fun _ => op (.mark mkKeyBack) fun _ => done (mkOutPanic, u)
         else op (.mark mkKeyBack) fun _ => done (out, { u with keys := u.keys + 1 })
     | _ =>
-      Prog.bind (guardDrop ses.mode items false) fun panicked =>
+      Prog.bind (guardDropN C.outer ses.mode items) fun panicked =>
         op .keyDrop fun _ => op (.mark mkKeyBack) fun _ =>
           done (if panicked then mkOutPanic else out, u)
 
